@@ -4,7 +4,7 @@
    (every const test made) and under [mech] (the tests the pinned implementation makes). *)
 From Coq Require Import List ZArith Bool Arith.
 From Cb Require Import Lang.Syntax Lang.Sem Lang.Respect Lang.Theorems Lang.Print.
-From Cb Require Import C09.RefConst C09.ConstPtr C09.PtrLemmas C09.Model C09.MatrixLemmas.
+From Cb Require Import C09.RefConst C09.ConstPtr C09.PtrLemmas C09.Model C09.MatrixLemmas C09.ChainLemmas.
 Import ListNotations.
 Local Open Scope Z_scope.
 
@@ -91,28 +91,68 @@ Theorem const_slots_immutable : forall pol, all_checked pol -> forall ops i s o 
 Proof. exact const_slots_immutable_l. Qed.
 Print Assumptions const_slots_immutable.
 
+(* a `T* const` pointer, a reference and an array parameter refer to the same thing after every script *)
 Theorem const_ptr_not_reseated : forall pol, all_checked pol -> forall ops i s p pt,
-  nth_error (ptrs s) p = Some pt -> pcc pt = true -> nth_error (ptrs (fst (run_from pol i s ops))) p = Some pt.
+  nth_error (ptrs s) p = Some pt -> pcc pt = true ->
+  exists pt', nth_error (ptrs (fst (run_from pol i s ops))) p = Some pt' /\ same_handle pt pt'.
 Proof. exact const_ptr_not_reseated_l. Qed.
 Print Assumptions const_ptr_not_reseated.
 
-(* the address of a protected object is refused at a declaration, an assignment and a call when the
-   receiving pointer permits writes, and accepted by a pointer to const *)
+(* "store through a pointer or reference derived from it is rejected": no script ever carries out a store through a
+   handle that is const (const T*, const T&, const T[n] parameter) or that was derived - over any number of copies,
+   re-bindings and calls - from a const handle or from the address of something protected (ghost flag [gbad]) *)
+Theorem no_store_through_const_view : forall pol, all_checked pol -> forall ops i s, Inv s -> gbad (fst (run_from pol i s ops)) = gbad s.
+Proof. exact no_store_through_const_view_l. Qed.
+Print Assumptions no_store_through_const_view.
+
+(* the address of a protected object is refused at a declaration, an assignment, as the argument of a call that stores
+   and as the argument of a `T*` parameter when the receiving pointer permits writes; accepted by a pointer to const *)
 Theorem addr_of_const_needs_const_ptr : forall pol s t, all_checked pol -> valid_tgt s t = true -> tgt_prot s t = true ->
   (forall cc, exists st, step pol s (OPtrNew false cc (Some (PAddr t))) = Rejected st) /\
-  (forall p pt, nth_error (ptrs s) p = Some pt -> ppc pt = false -> exists st, step pol s (OPtrSet p (PAddr t)) = Rejected st) /\
+  (forall p pt, nth_error (ptrs s) p = Some pt -> is_ptr pt = true -> ppc pt = false -> exists st, step pol s (OPtrSet p (PAddr t)) = Rejected st) /\
   (forall u, step pol s (OPtrCall (PAddr t) u) = Stuck \/ exists st, step pol s (OPtrCall (PAddr t) u) = Rejected st) /\
-  (forall cc, exists s', step pol s (OPtrNew true cc (Some (PAddr t))) = Ok s').
+  (exists st, step pol s (OPtrParam false (PAddr t)) = Rejected st) /\
+  (forall cc, exists s', step pol s (OPtrNew true cc (Some (PAddr t))) = Ok s') /\
+  (exists s', step pol s (OPtrParam true (PAddr t)) = Ok s').
 Proof. exact addr_of_const_needs_const_ptr_l. Qed.
 Print Assumptions addr_of_const_needs_const_ptr.
 
-(* nothing is stored through a pointer to const, and its constness cannot be dropped by a copy or a call *)
-Theorem pointee_const_no_write : forall pol s p pt, all_checked pol -> nth_error (ptrs s) p = Some pt -> ppc pt = true ->
+(* nothing is stored through a pointer to const - variable or parameter -, and its constness cannot be dropped by a copy
+   (declaration or assignment), by a call that stores, or by passing it on to a `T*` parameter of a further callee *)
+Theorem pointee_const_no_write : forall pol s p pt, all_checked pol -> nth_error (ptrs s) p = Some pt -> is_ptr pt = true -> ppc pt = true ->
   (forall f m u, step pol s (OPtrStore f p m u) = Stuck \/ exists st, step pol s (OPtrStore f p m u) = Rejected st) /\
   (forall cc, exists st, step pol s (OPtrNew false cc (Some (PCopy p))) = Rejected st) /\
-  (forall u, step pol s (OPtrCall (PCopy p) u) = Stuck \/ exists st, step pol s (OPtrCall (PCopy p) u) = Rejected st).
+  (forall u, step pol s (OPtrCall (PCopy p) u) = Stuck \/ exists st, step pol s (OPtrCall (PCopy p) u) = Rejected st) /\
+  (exists st, step pol s (OPtrParam false (PCopy p)) = Rejected st) /\
+  (forall q pq, nth_error (ptrs s) q = Some pq -> is_ptr pq = true -> ppc pq = false -> exists st, step pol s (OPtrSet q (PCopy p)) = Rejected st).
 Proof. exact ptc_no_write_l. Qed.
 Print Assumptions pointee_const_no_write.
+
+(* a reference to const - local or parameter -: no store goes through it, and no reference that permits writes is bound
+   through it, neither by `T& r = cr;` nor by passing it to a `T&` parameter *)
+Theorem const_ref_no_write : forall pol s h hp, all_checked pol -> nth_error (ptrs s) h = Some hp -> pkind hp = HRef -> ppc hp = true ->
+  (forall f m u, step pol s (OHStore f h m u) = Stuck \/ exists st, step pol s (OHStore f h m u) = Rejected st) /\
+  (forall par, step pol s (OHRef par false (HVia h)) = Stuck \/ exists st, step pol s (OHRef par false (HVia h)) = Rejected st).
+Proof. exact cref_no_write_l. Qed.
+Print Assumptions const_ref_no_write.
+
+(* no reference that permits writes is bound to a protected scalar or struct variable *)
+Theorem bind_const_rejected : forall pol s o ob, all_checked pol -> nth_error (objs s) o = Some ob -> oshape ob <> Arr ->
+  tgt_prot s (ref_tgt ob o) = true ->
+  forall par, step pol s (OHRef par false (HObj o)) = Stuck \/ exists st, step pol s (OHRef par false (HObj o)) = Rejected st.
+Proof. exact bind_const_rejected_l. Qed.
+Print Assumptions bind_const_rejected.
+
+(* an array parameter with a const anywhere up its chain of calls (itself, the array or array parameter it was bound to,
+   or further up): no element store, ++/-- or whole-array assignment goes through it, and every array parameter bound
+   through it is in the same position *)
+Theorem array_param_no_write : forall pol s h hp, all_checked pol -> nth_error (ptrs s) h = Some hp -> pkind hp = HAlias -> hconst hp = true ->
+  (forall f m u, step pol s (OHStore f h m u) = Stuck \/ exists st, step pol s (OHStore f h m u) = Rejected st) /\
+  (forall vs, step pol s (OHWhole h vs) = Stuck \/ exists st, step pol s (OHWhole h vs) = Rejected st) /\
+  (forall rc s', step pol s (OHRef true rc (HVia h)) = Ok s' ->
+     exists hp', nth_error (ptrs s') (length (ptrs s)) = Some hp' /\ pkind hp' = HAlias /\ hconst hp' = true /\ ptgt hp' = ptgt hp).
+Proof. exact alias_no_write_l. Qed.
+Print Assumptions array_param_no_write.
 
 Theorem direct_mutation_rejected : forall pol s o k ob, all_checked pol ->
   nth_error (objs s) o = Some ob -> slot_prot ob k = true -> (k < length (ovals ob))%nat ->
@@ -122,8 +162,44 @@ Theorem direct_mutation_rejected : forall pol s o k ob, all_checked pol ->
 Proof. exact direct_mutation_rejected_l. Qed.
 Print Assumptions direct_mutation_rejected.
 
-(* each of the 31 tests is necessary: with all the others in place and this one missing, a script
-   changes a protected slot or re-seats a const pointer *)
+(* ------------------------------------------------------------------ derivation chains across call boundaries *)
+(* object -> handle -> handle -> ... -> store.  [chain_statement c v]: the start state respects the discipline, the
+   property's verdict is v, and where the implementation's verdict differs the refusing test is one it lacks.
+   v = rejected as soon as the object or ANY link is const, changed otherwise (the twin). *)
+
+(* references: every chain of 1..3 links, each a local `[const] T& r = ..;` or a `[const] T&` parameter of a further
+   callee, from a scalar or a struct, with or without a read through the last reference, final store = or op= *)
+Theorem ref_chain_matrix : forall cst strct rd ls f, ls <> [] -> (length ls <= 3)%nat -> f <> FIncDec ->
+  chain_statement (ref_chain cst strct rd ls f) (chain_expect cst (map snd ls)).
+Proof. exact ref_chain_matrix_l. Qed.
+Print Assumptions ref_chain_matrix.
+
+(* array parameters: every chain of 1..4 calls, final store a[i] = / op= / ++ / whole-array assignment *)
+Theorem alias_chain_matrix : forall cst ls f, ls <> [] -> (length ls <= 4)%nat -> In f alias_finals ->
+  chain_statement (alias_chain cst ls f) (chain_expect cst ls).
+Proof. exact alias_chain_matrix_l. Qed.
+Print Assumptions alias_chain_matrix.
+
+(* pointers: every chain of 1..3 links, each acquired at a declaration, by assignment or as the `[const] T*` parameter
+   of a further callee, from a scalar / array element / struct / struct member, every final store form *)
+Theorem ptr_chain_matrix : forall cst r ls f, ls <> [] -> (length ls <= 3)%nat -> In f (proot_forms r) ->
+  chain_statement (ptr_chain cst r ls f) (chain_expect cst (map snd ls)).
+Proof. exact ptr_chain_matrix_l. Qed.
+Print Assumptions ptr_chain_matrix.
+
+(* chains of ANY length from a const scalar / struct (references) or a const array (array parameters) end in a refusal *)
+Theorem ref_chain_rejected_any_depth : forall pol strct rd ls f, all_checked pol -> ls <> [] -> f <> FIncDec ->
+  exists i st, snd (run pol (fst (ref_chain true strct rd ls f)) (snd (ref_chain true strct rd ls f))) = RejectedAt i st.
+Proof. exact ref_chain_rejected_any_depth_l. Qed.
+Print Assumptions ref_chain_rejected_any_depth.
+
+Theorem alias_chain_rejected_any_depth : forall pol ls fin, all_checked pol -> ls <> [] ->
+  exists i st, snd (run pol (fst (alias_chain true ls fin)) (snd (alias_chain true ls fin))) = RejectedAt i st.
+Proof. exact alias_chain_rejected_any_depth_l. Qed.
+Print Assumptions alias_chain_rejected_any_depth.
+
+(* each of the 46 tests is necessary: with all the others in place and this one missing, a script changes a protected
+   slot, re-seats a const pointer or carries out a store through a const view *)
 Theorem every_const_test_is_necessary : forall st, broken (all_but st) (fst (witness st)) (snd (witness st)).
 Proof. exact site_necessary_l. Qed.
 Print Assumptions every_const_test_is_necessary.
@@ -159,10 +235,11 @@ Theorem mech_matrix_rejected : forall k p c,
 Proof. exact mech_matrix_rejected_l. Qed.
 Print Assumptions mech_matrix_rejected.
 
-(* it still lacks 9 of the 31 tests ... *)
+(* it lacks 17 of the 46 tests (9 of the original 31, 8 of the 15 on derivation chains) ... *)
 Theorem mech_missing_tests_refuted : mech_holes =
   [SWholeMemberConst; SDerefExprStore; SPtrMemberConst; SAddrSubAssign; SAddrSubDecl; SAddrArg; SPtrCopyAssign; SPtrCopyDecl;
-   SConstRefStore].
+   SConstRefStore; SRefLocalCRef; SRefParamViaParam; SRefStructFresh; SPtcParamStore; SPtrCopyArgParam;
+   SAliasParentIncDec; SAliasParentWhole; SAliasDeep].
 Proof. exact mech_holes_list. Qed.
 Print Assumptions mech_missing_tests_refuted.
 
